@@ -38,6 +38,10 @@ def _jsonable(x):
 
 
 # ---------------------------------------------------------------------------------------------
+class HardTimeout(BaseException):
+    pass
+
+
 def _worker(args):
     """Runs one job (one member of the enumerated family) symbolically in a worker process."""
     modname, job, tier, seed = args
@@ -148,8 +152,23 @@ def _worker(args):
                 })
 
         deadline = t0 + job.get("budget_s", 600)
-        summ = core.explore(run, on_path, max_paths=job.get("max_paths", 20000),
-                            timeout_ms=job.get("timeout_ms"), deadline=deadline)
+        # hard stop for work that is neither a solver call (those are watched) nor between two paths (explore() looks at the
+        # deadline there): polynomial canonicalisation in pure Python can take arbitrarily long on an unlucky path
+        import signal
+
+        def _hard(signum, frame):
+            raise HardTimeout()
+
+        signal.signal(signal.SIGALRM, _hard)
+        signal.setitimer(signal.ITIMER_REAL, job.get("budget_s", 600) * 1.5 + 20)
+        try:
+            summ = core.explore(run, on_path, max_paths=job.get("max_paths", 20000),
+                                timeout_ms=job.get("timeout_ms"), deadline=deadline)
+        except HardTimeout:
+            summ = {"truncated": True}
+            out["hard_timeout"] = True
+        finally:
+            signal.setitimer(signal.ITIMER_REAL, 0)
         out["truncated"] = summ["truncated"]
         if hasattr(mod, "post_job"):
             mod.post_job(job, kept, out)
@@ -260,6 +279,7 @@ def run_check(prop, tier, seed, nproc=None):
     agg = {"paths": 0, "obligations": 0, "discharged": 0, "syntactic": 0, "inconclusive": 0, "nontrivial": 0,
            "decided_branches": 0, "sched_picks": 0}
     by_status, by_outcome, reached, stats, functions, stubs, unmod = {}, {}, {}, {}, set(), [], []
+    extra = {}
     for r in results:
         for k in agg:
             agg[k] += r.get(k, 0)
@@ -272,6 +292,9 @@ def run_check(prop, tier, seed, nproc=None):
             if s not in stubs:
                 stubs.append(s)
         unmod += r["unmodelled"][:2]
+        for k, v in r.items():
+            if k.startswith("x_") and isinstance(v, (int, float)):
+                extra[k[2:]] = extra.get(k[2:], 0) + v
 
     # violations -> replay -> classify
     findings = load_findings()
@@ -354,6 +377,7 @@ def run_check(prop, tier, seed, nproc=None):
             "vacuity_witnesses": reached,
             "stub_validation": stub_report,
             "truncated_jobs": [r["job"] for r in results if r["truncated"]],
+            "harness_counters": extra,
             "inconclusive_reasons": unmod[:10],
             "known_findings_hit": [{"key": k, "replay": os.path.relpath(p, VERIF), "occurrences": n}
                                    for k, _f, p, n in known_hits],
